@@ -603,8 +603,21 @@ impl TransportManager {
         let address_record = AddressRecord::from_multiaddr(address)
             .ok_or(Error::AddressError(AddressError::PeerIdMissing))?;
 
-        if self.listen_addresses.read().contains(address_record.as_ref()) {
-            return Err(Error::TriedToDialSelf);
+        {
+            // The listen addresses are stored with and without the local peer ID, the dialed
+            // address may carry any peer ID.
+            let without_peer_id = address_record
+                .address()
+                .iter()
+                .take_while(|protocol| !std::matches!(protocol, Protocol::P2p(_)))
+                .collect::<Multiaddr>();
+            let listen_addresses = self.listen_addresses.read();
+
+            if listen_addresses.contains(address_record.as_ref())
+                || listen_addresses.contains(&without_peer_id)
+            {
+                return Err(Error::TriedToDialSelf);
+            }
         }
 
         tracing::debug!(target: LOG_TARGET, address = ?address_record.address(), "dial address");
